@@ -47,13 +47,13 @@ const SLOTS = {
 function candidates (ast) {
   const out = []
   let depthFn = 0
-  const visit = (n, parent, key, inPattern, fnDepth) => {
+  const visit = (n, parent, key, inPattern, fnDepth, inTpl) => {
     if (!A.isObj(n)) return
-    if (Array.isArray(n)) { n.forEach(c => visit(c, parent, key, inPattern, fnDepth)); return }
+    if (Array.isArray(n)) { n.forEach(c => visit(c, parent, key, inPattern, fnDepth, inTpl)); return }
     if (!n.type) return
     const isFn = n.type === 'FunctionDeclaration' || n.type === 'FunctionExpression' || n.type === 'ArrowFunctionExpression'
     const fd = fnDepth + (isFn ? 1 : 0)
-    if (parent && !inPattern && n.start !== undefined && isExprSlot(n, parent, key)) out.push({ start: n.start, end: n.end, type: n.type, parent: parent.type, key, inFn: fnDepth > 0 })
+    if (parent && !inPattern && n.start !== undefined && isExprSlot(n, parent, key)) out.push({ start: n.start, end: n.end, type: n.type, parent: parent.type, key, inFn: fnDepth > 0, inTpl: !!inTpl })
     for (const k of Object.keys(n)) {
       if (k === 'type' || k === 'start' || k === 'end' || k === 'loc') continue
       const v = n[k]
@@ -62,11 +62,11 @@ function candidates (ast) {
       let pat = inPattern
       if ((n.type === 'VariableDeclarator' && k === 'id') || (isFn && k === 'params') || (n.type === 'CatchClause' && k === 'param') || (n.type === 'AssignmentExpression' && k === 'left') || ((n.type === 'ForOfStatement' || n.type === 'ForInStatement') && k === 'left') || (n.type === 'AssignmentPattern' && k === 'left') || n.type === 'ObjectPattern' || n.type === 'ArrayPattern' || n.type === 'RestElement') pat = true
       if (n.type === 'AssignmentPattern' && k === 'right') pat = false
-      visit(v, n, k, pat, fd)
+      visit(v, n, k, pat, fd, inTpl || (n.type === 'TemplateLiteral' && k === 'expressions'))
     }
   }
   void depthFn
-  visit(ast, null, null, false, 0)
+  visit(ast, null, null, false, 0, false)
   return out
 }
 
@@ -156,7 +156,9 @@ function spliceRunnable (rng, code, module, maxSplices = 3) {
   if (hasD7Shape(ast)) return null
   // (an array literal passed to a call may be the argument list of .apply: wrapping it would make the documented
   // literal-list requirement of X.prototype.m.apply inapplicable - known finding D19)
-  const cands = candidates(ast).filter(c => c.inFn && c.type !== 'Literal' && c.type !== 'TemplateLiteral' && !(c.type === 'ArrayExpression' && c.parent === 'CallExpression'))
+  // (nothing inside a template substitution either: the statement exempts the moment at which an earlier substitution is
+  // coerced relative to later ones, and a splice would put an effect into a later one)
+  const cands = candidates(ast).filter(c => c.inFn && !c.inTpl && c.type !== 'Literal' && c.type !== 'TemplateLiteral' && !(c.type === 'ArrayExpression' && c.parent === 'CallExpression'))
   if (!cands.length) return null
   const n = Math.min(cands.length, rng.range(1, maxSplices))
   const chosen = []
